@@ -11,7 +11,14 @@ ops  := translation S T                         → ok H err2
         similarity rot mirror S T rT rS U Vt    → ok H CORR norm2S norm2T err2 cent… norm2Aligned | err dim
         construct resync S T H                  → ok TARGET ALIGNED alignmentError2
         tps K S T np (x y kern₁…kern_n)*        → ok COEF (u v)*                  | err singular
-        pwa SRC TGT nt (i j k)* np (x y)*       → ok (1 u v ti | 0)*
+        pwa SRC TGT nt (i j k)* np (x y)*       → ok cert (1 u v ti alpha beta | 0)*   (cert = pwaCertB on the triangle list)
+        tpsaff K S T                            → ok invertible bendingIsZero     | err singular
+        tpssvd K S T U ns s₁…s_ns Vt minSing np (x y kern₁…kern_n)*
+                                                → ok keep keptOK symmetricL COEF (u v)*   (the coded truncated-SVD branch)
+        gpa mirror hasT k (S)^k [T] (SIMWIT)^k initScale maxIter nw (newNorm (SIMWIT)^k)^nw
+                                                → ok converged nIter REPORTED ALIGNTARGET (H)^k (err2)^k | err too-few-sources
+          SIMWIT := rT rS U Vt
+        `scale` and `similarity` answer `err zero-size-source` when `source.norm()` is 0 (`fitScaleE`/`simFitE`).
 `H`, `R`, `CORR`, … are printed row major without a shape prefix.
 -/
 import MenpoModel.Core.Codec
@@ -52,9 +59,12 @@ def doTranslation (S T : AMat) : String :=
 def doScale (S T : AMat) (rT rS : Rat) : String :=
   let n := S.r; let d := S.c
   let s : Mat n d := S.m n d; let t : Mat n d := T.m n d
-  let Ha := tab (fitScale rT rS : HMat d); let H : HMat d := ofArr Ha
-  let ala := tab (applyH H s); let al : Mat n d := ofArr ala
-  s!"ok {fmtRat (norm2 s)} {fmtRat (norm2 t)} {fmtM H} {fmtRat (norm2 al)}"
+  match (fitScaleE rT rS : Option (HMat d)) with
+  | none => s!"err zero-size-source {fmtRat (norm2 s)} {fmtRat (norm2 t)}"
+  | some H0 =>
+    let Ha := tab H0; let H : HMat d := ofArr Ha
+    let ala := tab (applyH H s); let al : Mat n d := ofArr ala
+    s!"ok {fmtRat (norm2 s)} {fmtRat (norm2 t)} {fmtM H} {fmtRat (norm2 al)}"
 
 def doAffine (S T : AMat) : String :=
   let n := S.r; let d := S.c
@@ -91,11 +101,14 @@ def doSimilarity (rot mirror : Bool) (S T : AMat) (rT rS : Rat) (U Vt : AMat) : 
   let s : Mat n d := S.m n d; let t : Mat n d := T.m n d
   let u : Mat d d := U.m d d; let vt : Mat d d := Vt.m d d
   let Ra := tab (rotFit mirror u vt); let R : Mat d d := ofArr Ra
-  let Ha := tab (simFit rot rT rS R s t); let H : HMat d := ofArr Ha
-  let ala := tab (applyH H s); let al : Mat n d := ofArr ala
-  let xsa := tab (simAlignedSrc (rT / rS) s); let xs : Mat n d := ofArr xsa
-  let xta := tab (simAlignedTgt t); let xt : Mat n d := ofArr xta
-  s!"ok {fmtM H} {fmtM (corr xs xt)} {fmtRat (norm2 s)} {fmtRat (norm2 t)} {fmtRat (err2 al t)} {fmtV (centroid al)} {fmtV (centroid t)} {fmtRat (norm2 al)}"
+  match simFitE rot rT rS R s t with
+  | none => s!"err zero-size-source {fmtRat (norm2 s)} {fmtRat (norm2 t)}"
+  | some H0 =>
+    let Ha := tab H0; let H : HMat d := ofArr Ha
+    let ala := tab (applyH H s); let al : Mat n d := ofArr ala
+    let xsa := tab (simAlignedSrc (rT / rS) s); let xs : Mat n d := ofArr xsa
+    let xta := tab (simAlignedTgt t); let xt : Mat n d := ofArr xta
+    s!"ok {fmtM H} {fmtM (corr xs xt)} {fmtRat (norm2 s)} {fmtRat (norm2 t)} {fmtRat (err2 al t)} {fmtV (centroid al)} {fmtV (centroid t)} {fmtRat (norm2 al)}"
 
 def doConstruct (resync : Bool) (S T H : AMat) : String :=
   let n := S.r; let d := S.c
@@ -118,15 +131,83 @@ def doTps (K S T : AMat) (probes : List (Rat × Rat × List Rat)) : String :=
       s!"{fmtRat (v 0)} {fmtRat (v 1)}"
     s!"ok {fmtM c}" ++ String.join (outs.map fun o => " " ++ o)
 
+/-- affine-image targets: is the system invertible (checked right inverse) and is the bending block exactly zero? -/
+def doTpsAff (K S T : AMat) : String :=
+  let n := S.r
+  let k : Mat n n := K.m n n; let s : Mat n 2 := S.m n 2; let t : Mat n 2 := T.m n 2
+  match tpsFit k s t with
+  | none => "err singular"
+  | some c0 =>
+    let ca := tab c0; let c : Mat (n + 3) 2 := ofArr ca
+    let la := tab (tpsL k s); let l : Mat (n + 3) (n + 3) := ofArr la
+    let inv := (solveChecked l (one : Mat (n + 3) (n + 3))).isSome
+    let bend0 := (List.finRange n).all fun i => (List.finRange 2).all fun j => c (Fin.castAdd 3 i) j == 0
+    s!"ok {if inv then 1 else 0} {if bend0 then 1 else 0}"
+
+/-- `_build_coefficients` as coded, on what `np.linalg.svd(self.l)` returned -/
+def doTpsSvd (K S T U : AMat) (sv : List Rat) (Vt : AMat) (minSing : Rat) (probes : List (Rat × Rat × List Rat)) : String :=
+  let n := S.r
+  let k : Mat n n := K.m n n; let s : Mat n 2 := S.m n 2; let t : Mat n 2 := T.m n 2
+  let u : Mat (n + 3) (n + 3) := U.m (n + 3) (n + 3); let vt : Mat (n + 3) (n + 3) := Vt.m (n + 3) (n + 3)
+  let sva := sv.toArray
+  let svv : Vec (n + 3) := fun i => sva.getD i.val 0
+  let ca := tab (tpsFitSvd u svv vt minSing t); let c : Mat (n + 3) 2 := ofArr ca
+  let la := tab (tpsL k s); let l : Mat (n + 3) (n + 3) := ofArr la
+  let sym := matEqB (tr l) l
+  let outs := probes.map fun (x, y, kr) =>
+    let v := tpsApply c (fun i => kr.getD i.val 0) x y
+    s!"{fmtRat (v 0)} {fmtRat (v 1)}"
+  s!"ok {tpsKeep svv minSing} {if tpsKeptOKB svv minSing then 1 else 0} {if sym then 1 else 0} {fmtM c}" ++
+    String.join (outs.map fun o => " " ++ o)
+
+structure SimWitA where
+  rT : Rat
+  rS : Rat
+  U : AMat
+  Vt : AMat
+
+def SimWitA.w (x : SimWitA) (d : Nat) : SimWit d := ⟨x.rT, x.rS, x.U.m d d, x.Vt.m d d⟩
+
+def pSimWit : P SimWitA := do
+  let a ← pRat; let b ← pRat; let u ← pAMat; let v ← pAMat; pure ⟨a, b, u, v⟩
+
+def doGpa (mirror : Bool) (srcs : List AMat) (tgt : Option AMat) (w0 : List SimWitA) (initScale : Rat)
+    (maxIter : Nat) (ws : List (Rat × List SimWitA)) : String :=
+  match srcs with
+  | [] => "err too-few-sources"
+  | s0 :: _ =>
+    let k := srcs.length; let n := s0.r; let d := s0.c
+    if d != 2 && d != 3 then "err dim" else
+    let srcA := srcs.toArray
+    let sources : Fin k → Mat n d := fun a => (srcA.getD a.val ⟨0, 0, #[]⟩).m n d
+    let w0A := w0.toArray
+    let dflt : SimWitA := ⟨1, 1, ⟨0, 0, #[]⟩, ⟨0, 0, #[]⟩⟩
+    let w0f : Fin k → SimWit d := fun a => (w0A.getD a.val dflt).w d
+    let wsA := ws.toArray.map fun (nn, l) => (nn, l.toArray)
+    let wsf : Nat → GpaWit k d := fun it =>
+      match wsA[it - 1]? with
+      | some (nn, l) => ⟨nn, fun a => (l.getD a.val dflt).w d⟩
+      | none => default
+    match gpa mirror sources (tgt.map fun t => t.m n d) w0f initScale maxIter wsf with
+    | none => "err too-few-sources"
+    | some r =>
+      let st := r.state
+      let rep : Mat n d := ofArr r.reported
+      let hs := String.join ((List.finRange k).map fun a => " " ++ fmtM (st.transform a : HMat d))
+      let es := String.join ((List.finRange k).map fun a => " " ++ fmtRat (gpaErr2 sources st a))
+      s!"ok {if st.converged then 1 else 0} {st.nIter} {fmtM rep} {fmtM (st.tgt n : Mat n d)}{hs}{es}"
+
 def doPwa (SRC TGT : AMat) (tris : List Tri) (pts : List (Rat × Rat)) : String :=
   let src : Nat → V2 := fun i => ⟨(SRC.a.getD i #[]).getD 0 0, (SRC.a.getD i #[]).getD 1 0⟩
   let tgt : Nat → V2 := fun i => ⟨(TGT.a.getD i #[]).getD 0 0, (TGT.a.getD i #[]).getD 1 0⟩
   let outs := pts.map fun (x, y) =>
     let p : V2 := ⟨x, y⟩
     match pwaTri src tris p, pwaApply src tgt tris p with
-    | some t, some q => s!" 1 {fmtRat q.x} {fmtRat q.y} {tris.idxOf t}"
+    | some t, some q =>
+      let ab := triAB src t p
+      s!" 1 {fmtRat q.x} {fmtRat q.y} {tris.idxOf t} {fmtRat ab.1} {fmtRat ab.2}"
     | _, _ => " 0"
-  "ok" ++ String.join outs
+  s!"ok {if pwaCertB src tris then 1 else 0}" ++ String.join outs
 
 def pTri : P Tri := do let i ← pNat; let j ← pNat; let k ← pNat; pure (i, j, k)
 def pPt : P (Rat × Rat) := do let x ← pRat; let y ← pRat; pure (x, y)
@@ -161,6 +242,26 @@ def step (toks : List String) : String :=
         let pr ← pList (do let x ← pRat; let y ← pRat; let kr ← pMany pRat s.r; pure (x, y, kr))
         pure (k, s, t, pr)) rest with
     | some (k, s, t, pr) => doTps k s t pr
+    | none => "bad-op"
+  | "tpsaff" :: rest => match runP (do let k ← pAMat; let s ← pAMat; let t ← pAMat; pure (k, s, t)) rest with
+    | some (k, s, t) => doTpsAff k s t
+    | none => "bad-op"
+  | "tpssvd" :: rest => match runP (do
+        let k ← pAMat; let s ← pAMat; let t ← pAMat; let u ← pAMat; let sv ← pList pRat; let vt ← pAMat
+        let ms ← pRat
+        let pr ← pList (do let x ← pRat; let y ← pRat; let kr ← pMany pRat s.r; pure (x, y, kr))
+        pure (k, s, t, u, sv, vt, ms, pr)) rest with
+    | some (k, s, t, u, sv, vt, ms, pr) => doTpsSvd k s t u sv vt ms pr
+    | none => "bad-op"
+  | "gpa" :: rest => match runP (do
+        let m ← pBit; let ht ← pBit; let k ← pNat
+        let srcs ← pMany pAMat k
+        let tgt ← (if ht then (do let t ← pAMat; pure (some t)) else pure none : P (Option AMat))
+        let w0 ← pMany pSimWit k
+        let isc ← pRat; let mi ← pNat
+        let ws ← pList (do let nn ← pRat; let l ← pMany pSimWit k; pure (nn, l))
+        pure (m, srcs, tgt, w0, isc, mi, ws)) rest with
+    | some (m, srcs, tgt, w0, isc, mi, ws) => doGpa m srcs tgt w0 isc mi ws
     | none => "bad-op"
   | "pwa" :: rest => match runP (do
         let s ← pAMat; let t ← pAMat; let tris ← pList pTri; let pts ← pList pPt; pure (s, t, tris, pts)) rest with
